@@ -46,6 +46,7 @@ import (
 	"path/filepath"
 	"reflect"
 	"sort"
+	"strconv"
 	"strings"
 	"sync"
 	"time"
@@ -813,6 +814,12 @@ func (d *drv) postCondition(rep *common.Report, r runObs, in CaseInput, proofs b
 		}
 		for _, f := range in.Facts {
 			if have[f] == 0 {
+				// generator-side pitfall (also repaired at generation time, see correctedFacts;
+				// kept here for stored inputs): an untyped integral native double is an xsd:integer
+				if alt, ok := integralDoubleAsInteger(f); ok && have[alt] > 0 {
+					have[alt]--
+					continue
+				}
 				rep.Fail("c15-field-missing", fmt.Sprintf("MerklizeJSONLD %v reports success but the fact %+v of the document is not among the entries", r.spec, f), in)
 				return false
 			}
@@ -837,6 +844,19 @@ func (d *drv) postCondition(rep *common.Report, r runObs, in CaseInput, proofs b
 		}
 	}
 	return true
+}
+
+// integralDoubleAsInteger: the xsd:integer fact JSON-LD states for a native number the
+// generator recorded as an xsd:double with an integral value ("3.73E2" -> 373).
+func integralDoubleAsInteger(f docgen.Fact) (docgen.Fact, bool) {
+	if f.Datatype != docgen.XSD+"double" || !strings.HasPrefix(f.Value, "str:") {
+		return f, false
+	}
+	x, err := strconv.ParseFloat(strings.TrimPrefix(f.Value, "str:"), 64)
+	if err != nil || x != float64(int64(x)) {
+		return f, false
+	}
+	return docgen.Fact{Pattern: f.Pattern, Value: "int:" + strconv.FormatInt(int64(x), 10), Datatype: docgen.XSD + "integer"}, true
 }
 
 // failingTree fails the failAt-th Add (1-based) and behaves like the wrapped tree otherwise.
@@ -1372,6 +1392,36 @@ func ldArrayify(v any) []any {
 	return []any{v}
 }
 
+// correctedFacts returns the generator's facts with one known expectation error of
+// docgen.literal repaired (the same repair as c01.fixIntegralNativeDoubles): an UNTYPED
+// native double f = (k+1)/64 is integral for 1 draw in 64; JSON then writes "373" and
+// JSON-LD rightly types it xsd:integer, while the generator recorded an xsd:double fact
+// ("3.73E2").  ok = false when the repaired fact coincides with another fact of the
+// document (the set semantics of RDF would then merge them).
+func correctedFacts(gd *docgen.Doc) ([]docgen.Fact, bool) {
+	facts := append([]docgen.Fact{}, gd.Facts...)
+	ok := true
+	for _, l := range gd.Leaves {
+		f, isF := l.Raw.(float64)
+		if l.Kind != "native-double" || !isF || f != float64(int64(f)) {
+			continue
+		}
+		for i := range facts {
+			if facts[i] == l.Fact {
+				nf := docgen.Fact{Pattern: facts[i].Pattern, Value: "int:" + strconv.FormatInt(int64(f), 10), Datatype: docgen.XSD + "integer"}
+				for j := range facts {
+					if j != i && facts[j] == nf {
+						ok = false
+					}
+				}
+				facts[i] = nf
+				break
+			}
+		}
+	}
+	return facts, ok
+}
+
 // genCase builds one document of the given stream.
 func (d *drv) genCase(g *docgen.Gen, stream string) (CaseInput, bool) {
 	r := d.cfg.Rng
@@ -1396,7 +1446,13 @@ func (d *drv) genCase(g *docgen.Gen, stream string) (CaseInput, bool) {
 		vocab = "http://vocab.example/"
 	}
 	withExtraContext(obj, vocab)
-	in := CaseInput{Stream: stream, Expected: len(gd.Facts), Facts: gd.Facts}
+	facts, factsOK := correctedFacts(gd)
+	in := CaseInput{Stream: stream, Expected: len(facts), Facts: facts}
+	if !factsOK {
+		// the correction made two facts of one property coincide (RDF is a set): the
+		// generator's account is not reliable for this document, count and facts are not checked
+		in.Expected, in.Facts = -1, nil
+	}
 	if vocab != "" {
 		in.Injected = append(in.Injected, "vocab:"+vocab)
 	}
